@@ -364,7 +364,8 @@ class _BufferedWrite:
 # --------------------------------------------------------------------------------------------------
 
 _MALFORMED_AGE = 2.0
-HANG_SECONDS = 20.0
+HANG_SECONDS = 90.0
+HUNG_TOTAL = [0]  # how often the hang protection fired in this process (the runner discards such cases)
 # non-terminal SLURM states outside JADE's five-entry table: the batch is still queued / allocated
 EXOTIC_PENDING = ["REQUEUED", "REQUEUE_HOLD", "RESV_DEL_HOLD", "REQUEUE_FED"]
 EXOTIC_RUNNING = ["SUSPENDED", "RESIZING", "STOPPED", "SIGNALING"]
@@ -1006,6 +1007,7 @@ class World:
         import ctypes
 
         self.hung.append(vt.name)
+        HUNG_TOTAL[0] += 1
         self.inconclusive = True
         vt.dead = True
         for p in vt.procs:
